@@ -495,6 +495,63 @@ def check_spelling(ctx, env, s):
     ctx.case(case, tag != S.TAG_STR)
 
 
+EXPLICIT = [
+    (S.TAG_BOOL, ['yes', 'No', 'ON', 'off', 'y', 'N', 'true', 'TRUE', 'False',
+                  'Yes', 'tRue', 'maybe', '', '1', '0']),
+    (S.TAG_NULL, ['~', 'null', 'Null', 'NULL', '', 'x', '0', 'None']),
+    (S.TAG_INT, ['12', '0x1F', '017', '1_000', '1:30', '+7', '-0', 'abc', '',
+                 '1.5', '0o17', '0b101', ' 3']),
+    (S.TAG_FLOAT, ['1.5', '12', '.inf', '-.INF', '.nan', '1e3', '1:30.5',
+                   '1_0.5', 'abc', '', '0x1F', 'inf', 'nan']),
+    (S.TAG_STR, ['12', 'true', '~', '', 'x y']),
+]
+
+
+def check_explicit(ctx, env, tag, s):
+    """A scalar that carries an explicit core tag: a load constructs what
+    PyYAML's constructor for that tag makes of the text (or rejects the
+    document); get_value() on the node must agree."""
+    ctx.count('explicit_tag_cases')
+    text = '!<%s> "%s"\n' % (tag, s)
+    try:
+        want = env.load(text)
+        lerr = None
+    except Exception as e:      # noqa
+        want, lerr = None, e
+    case = {'kind': 'explicit', 'tag': tag, 's': s}
+    short = tag.rsplit(':', 1)[-1]
+    try:
+        got = yatiml.Node(N.mk(['s', tag, s])).get_value()
+        gerr = None
+    except Exception as e:      # noqa
+        got, gerr = None, e
+    if lerr is not None:
+        # the load rejects the document: get_value() has nothing to agree
+        # with, but must not raise anything but RecognitionError
+        ctx.count('explicit_tag_load_rejects')
+        if gerr is not None and not isinstance(gerr, yatiml.RecognitionError):
+            ctx.violation(
+                'C14 get_value raised %s tag=%s explicit-tag' % (
+                    type(gerr).__name__, short),
+                'get_value() on !!%s %r raised %s: %s (a load rejects the '
+                'document with %s)' % (short, s, type(gerr).__name__, gerr,
+                                       type(lerr).__name__), case)
+        ctx.case(case, True)
+        return
+    if gerr is not None:
+        ctx.violation(
+            'C14 get_value raised %s tag=%s explicit-tag' % (
+                type(gerr).__name__, short),
+            'get_value() on !!%s %r raised %s: %s; a load constructs %r' % (
+                short, s, type(gerr).__name__, gerr, want), case)
+    elif not same_scalar(got, want):
+        ctx.violation(
+            'C14 get_value differs-from-load tag=%s explicit-tag' % short,
+            'get_value() on !!%s %r -> %r; a load constructs %r' % (
+                short, s, got, want), case)
+    ctx.case(case, True)
+
+
 def spell_feature(s):
     b = s.lstrip('+-')
     if b[:2] in ('0x', '0X'):
@@ -730,6 +787,12 @@ def shard(ctx):
               'TRUE', 'True', 'FALSE', '~', 'null', 'Null', '', '0_1', '1_',
               '0xdead_beef', '00', '09', '1__0', '0b_1', '-0b11', '+0x_F',
               '9223372036854775808', '-.5', '1_0.5']
+    k = 0
+    for tag, texts in EXPLICIT:
+        for t in texts:
+            k += 1
+            if ctx.mine(k):
+                check_explicit(ctx, env, tag, t)
     for i, s in enumerate(extra):
         if ctx.mine(i):
             check_spelling(ctx, env, s)
@@ -821,6 +884,8 @@ def replay(ctx, case):
         check_set_get(ctx, case['spec'], plain_dec(case['value']))
     elif k == 'spelling':
         check_spelling(ctx, env, case['s'])
+    elif k == 'explicit':
+        check_explicit(ctx, env, case['tag'], case['s'])
     elif k == 'defaults':
         check_defaults(ctx, env, case['d'], case['o'], case['vals'],
                        case.get('o2'))
